@@ -3,9 +3,64 @@
 // Contracts for cmd/bkld (comment-only; read by /verif/bin/bklverif).
 package main
 
+// The round trip of the property statement, with the same mergeF/mergeErr that merge is proved against (C01):
+//   diff(target, base) = nil          =>  target = base
+//   diff(target, base) = layer != nil =>  bkl accepts the layer over base and the result is the target
+// for "$"-free, null-free targets outside the classes of finding F13 (kindBad).
+
 //@ func diff(dst, src) (res, err)
+//@   requires (plainT dst)
+//@   ensures (not (isErr err))
+//@   ensures (=> (not (kindBad dst src)) (=> (= res VNil) (= dst src)))                                       [C15]
+//@   ensures (=> (not (kindBad dst src)) (=> (not (= res VNil)) (and (not (mergeErr src res)) (= (mergeF src res) dst))))   [C15] [C16]
+//@   ensures (not (= res (VStr "$delete")))
+//@   ensures (=> (= dst src) (= res VNil))                                                                    [C15]
 //@   decreases (rank dst) 2
+//
 //@ func diffMap(dst, src) (res, err)
+//@   requires ((_ is VMap) dst) (plainT dst)
+//@   ensures (not (isErr err))
+//@   ensures (=> (not (kindBad dst src)) (=> (= res VNil) (= dst src)))                                       [C15]
+//@   ensures (=> (not (kindBad dst src)) (=> (not (= res VNil)) (and (not (mergeErr src res)) (= (mergeF src res) dst))))   [C15]
+//@   ensures (not (= res (VStr "$delete")))
+//@   ensures (=> (= dst src) (= res VNil))                                                                    [C15]
 //@   decreases (rank dst) 1
+//
 //@ func diffMapMap(dst, src) (res, err)
+//@   requires ((_ is VMap) dst) ((_ is VMap) src) (plainT dst)
+//@   ensures (not (isErr err))
+//@   ensures (=> (not (kindBad dst src)) (=> (= res VNil) (= dst src)))                                       [C15]
+//@   ensures (=> (not (kindBad dst src)) (=> (not (= res VNil)) (and (not (mergeErr src res)) (= (mergeF src res) dst))))   [C15]
+//@   ensures (not (= res (VStr "$delete")))
+//@   ensures (=> (= dst src) (= res VNil))                                                                    [C15]
 //@   decreases (rank dst) 0
+//@   loop 1
+//@     invariant ((_ is VMap) ret)
+//@     invariant (forall ((j String)) (=> (select visited j)
+//@                  (ite (= (select (mc src) j) VAbsent) (= (select (mc ret) j) (select (mc dst) j))
+//@                  (=> (not (kindBad (select (mc dst) j) (select (mc src) j)))
+//@                      (ite (= (select (mc ret) j) VAbsent) (= (select (mc dst) j) (select (mc src) j))
+//@                           (and (not (= (select (mc ret) j) (VStr "$delete")))
+//@                                (not (mergeErr (select (mc src) j) (select (mc ret) j)))
+//@                                (= (mergeF (select (mc src) j) (select (mc ret) j)) (select (mc dst) j))))))))
+//@     invariant (forall ((j String)) (=> (not (select visited j)) (= (select (mc ret) j) VAbsent)))
+//@     invariant (=> (= dst src) (forall ((j String)) (= (select (mc ret) j) VAbsent)))
+//@   loop 2
+//@     invariant ((_ is VMap) ret)
+//@     invariant (forall ((j String)) (= (select (mc ret) j)
+//@                  (ite (and (select visited j) (= (select (mc dst) j) VAbsent)) (VStr "$delete") (select (mc ret@loop) j))))
+//
+//@ func diffList(dst, src) (res, err)
+//@   requires ((_ is VList) dst) (plainT dst)
+//@   ensures (not (isErr err))
+//@   ensures (=> (not (kindBad dst src)) (=> (= res VNil) (= dst src)))                                       [C15]
+//@   ensures (=> (not (kindBad dst src)) (=> (not (= res VNil)) (and (not (mergeErr src res)) (= (mergeF src res) dst))))   [C15]
+//@   ensures (not (= res (VStr "$delete")))
+//@   ensures (=> (= dst src) (= res VNil))                                                                    [C15]
+//
+//@ func diffListList(dst, src) (res, err) trusted
+//@   ensures (not (isErr err))
+//@   ensures (=> (listClean (ls dst) (ls src)) (=> (= res VNil) (= dst src)))
+//@   ensures (=> (listClean (ls dst) (ls src)) (=> (not (= res VNil)) (and (not (llErr (ls src) (ls res))) ((_ is VList) res) (= (llF (ls src) (ls res)) (ls dst)))))
+//@   ensures (not (= res (VStr "$delete")))
+//@   ensures (=> (= dst src) (= res VNil))
